@@ -349,6 +349,7 @@ def _apply_stack(ex, st, recv, args, exact=False):
 # ------------------------------------------------------------------------------------- Require
 req_has = z3.Function("temp_has_required_item", dsl.Ref, dsl.Ref, z3.BoolSort())      # (target, algo): algo.item in target.temp
 req_none = z3.Function("required_item_is_None", dsl.Ref, dsl.Ref, z3.BoolSort())      # target.temp[algo.item] is None
+req_truthy = z3.Function("required_item_is_truthy", dsl.Ref, dsl.Ref, z3.BoolSort())   # truthiness of the entry itself
 req_pred = z3.Function("pred_truthy_on_item", dsl.Ref, dsl.Ref, z3.BoolSort())        # truthiness of algo.pred(target.temp[algo.item])
 req_pred_f = z3.Function("pred_isFalse_on_item", dsl.Ref, dsl.Ref, z3.BoolSort())
 req_pred_t = z3.Function("pred_isTrue_on_item", dsl.Ref, dsl.Ref, z3.BoolSort())
@@ -384,14 +385,31 @@ def verify_require(ex, contract, timeout_ms=30000):
                     return [(st, ItemV(b.owner, i.owner))]
                 return base.ext_load_subscript(self, st, b, i)
 
+            def load_attr(self, st, obj, attr):
+                if isinstance(obj, TempV) and obj.which == "temp" and attr == "get":
+                    return [(st, BoundFn("req_tempget", "get", recv=obj))]
+                return base.load_attr(self, st, obj, attr)
+
+            def truth(self, st, v):
+                if isinstance(v, ItemV):
+                    # truthiness of temp.get(item): absent / None are falsy, a present entry has its own (uninterpreted) truthiness
+                    return And(req_has(v.target.term, v.algo.term), Not(req_none(v.target.term, v.algo.term)), req_truthy(v.target.term, v.algo.term)) if getattr(v, "optional", False) else req_truthy(v.target.term, v.algo.term)
+                return base.truth(self, st, v)
+
             def _is(self, a, b, st):
                 if isinstance(b, ItemV):
                     a, b = b, a
                 if isinstance(a, ItemV) and b is NONEV:
+                    if getattr(a, "optional", False):   # temp.get(item) is None: absent, or present and None
+                        return Or(Not(req_has(a.target.term, a.algo.term)), req_none(a.target.term, a.algo.term))
                     return req_none(a.target.term, a.algo.term)
                 return base._is(self, a, b, st)
 
             def call_value(self, st, f, pos, kw):
+                if isinstance(f, BoundFn) and f.kind == "req_tempget" and len(pos) == 1 and isinstance(pos[0], OpaqueV) and pos[0].field == "item":
+                    v = ItemV(f.recv.owner, pos[0].owner)
+                    v.optional = True
+                    return [(st, v)]
                 if isinstance(f, OpaqueV) and f.field == "pred" and len(pos) == 1 and isinstance(pos[0], ItemV):
                     st.ghost["pred_calls"] = st.ghost.get("pred_calls", 0) + 1
                     t, a = pos[0].target.term, f.owner.term
